@@ -80,7 +80,7 @@ def case_1d(ctx, index, rng: random.Random):
     except Exception:
         rec.case(["ref-raised"], False, cls="1d/ref_raised")
         return
-    container = rng.choice(["list", "tuple", "iter", "gen", "array2d", "pd_series", "pd_series_acc", "pd_df_acc", "pl_series", "pl_series_acc", "pl_df_acc", "int_array", "f32_array"])
+    container = rng.choice(["list", "tuple", "iter", "gen", "array2d", "array2d_layout", "pd_series", "pd_series_acc", "pd_df_acc", "pl_series", "pl_series_acc", "pl_df_acc", "int_array", "f32_array"])
     if container in ("int_array", "f32_array") and bins != "edges":
         container = "list"  # converted values with data-derived fixed-width bins could force millions of bins
     desc = {"container": container, "bins": bins, "data": gen.hexlist(data), "weights": None if w is None else w.tolist()}
@@ -113,6 +113,28 @@ def case_1d(ctx, index, rng: random.Random):
                     except Exception:
                         return
                 got = physt.h1(data[:m].reshape(2, -1), barg, **k2)
+            elif container == "array2d_layout":
+                # multi-dimensional input that is not C-contiguous (Fortran order / a transposed view): the flattened order of the
+                # values is the logical (C) order, and weights of the same shape follow it, with dropna on or off
+                m = n - n % 2
+                if m < 4 or np.isnan(data[:m]).any():
+                    return
+                a2 = data[:m].reshape(2, -1)
+                alt = np.asfortranarray(a2) if rng.random() < 0.5 else np.ascontiguousarray(a2.T).T
+                k2 = dict(kw)
+                if w is not None:
+                    k2["weights"] = w[:m].reshape(2, -1) if rng.random() < 0.5 else np.asfortranarray(w[:m].reshape(2, -1))
+                if rng.random() < 0.6:
+                    k2["dropna"] = False
+                with attach.quiet():
+                    kr = dict(kw)
+                    if w is not None:
+                        kr["weights"] = w[:m]
+                    try:
+                        ref = physt.h1(data[:m].copy(), barg, **kr)
+                    except Exception:
+                        return
+                got = physt.h1(alt, barg, **k2)
             elif container in ("int_array", "f32_array"):
                 conv = np.round(np.nan_to_num(data, nan=0.0)).astype(np.int64) if container == "int_array" else data.astype(np.float32)
                 with attach.quiet():
@@ -190,7 +212,7 @@ def case_nd(ctx, index, rng: random.Random):
     except Exception:
         return
     cols = [f"c{i}" for i in range(d)]
-    container = rng.choice(["rows_list", "pd_df", "pd_df_acc", "pl_df", "pl_df_acc", "h2_series_pd", "h2_series_pl", "h2_lists", "h3_cols"])
+    container = rng.choice(["rows_list", "pd_df", "pd_df_acc", "pl_df", "pl_df_acc", "h2_series_pd", "h2_series_pl", "h2_lists", "h3_cols", "h2_layouts"])
     desc = {"container": container, "d": d, "rows": gen.hexlist(rows.ravel()), "weights": None if w is None else w.tolist()}
     names = tuple(cols)
     bins = [e.copy() for e in edges]
@@ -225,6 +247,23 @@ def case_nd(ctx, index, rng: random.Random):
                     a, b = rows[:, 0].tolist(), rows[:, 1].tolist()
                     names = None
                 got = physt.h2(a, b, bins, **kw)
+            elif container == "h2_layouts":
+                # the two coordinate arrays are multi-dimensional with different memory layouts: pairs are formed in logical order
+                m = n - n % 2
+                if d != 2 or m < 4 or np.isnan(rows[:m]).any():
+                    return
+                with attach.quiet():
+                    kr = dict(kw)
+                    if w is not None:
+                        kr["weights"] = w[:m]
+                    ref = physt.h(rows[:m].copy(), [e.copy() for e in edges], **kr)
+                a = np.asfortranarray(rows[:m, 0].reshape(2, -1))
+                b = rows[:m, 1].reshape(2, -1).copy()
+                k2 = dict(kw)
+                if w is not None:
+                    k2["weights"] = w[:m]
+                got = physt.h2(a, b, bins, **k2)
+                names = None
             else:
                 if d != 3:
                     return
@@ -247,7 +286,8 @@ def case_refusal(ctx, index, rng: random.Random):
 
     rec = ctx.rec
     rec.mon("C17.differential")
-    kind = rng.choice(["pd_nonnumeric", "pl_nonnumeric", "pl_null", "df_to_h1", "series_to_h", "ragged", "scalar", "pl_df_to_h1", "weights_shape", "dim_mismatch"])
+    kind = rng.choice(["pd_nonnumeric", "pl_nonnumeric", "pl_null", "df_to_h1", "series_to_h", "ragged", "scalar", "pl_df_to_h1", "weights_shape", "dim_mismatch",
+                       "pd_df_dim_mismatch", "pl_df_dim_mismatch", "h3_two_columns", "pd_df_nonnumeric"])
     raised = False
     try:
         with warnings.catch_warnings():
@@ -270,6 +310,14 @@ def case_refusal(ctx, index, rng: random.Random):
                 physt.h1(pl.DataFrame({"a": [1.0, 2.0], "b": [2.0, 3.0]}), 2)
             elif kind == "weights_shape":
                 physt.h1([1.0, 2.0, 3.0], np.array([0.0, 2.0, 4.0]), weights=[1.0, 2.0])
+            elif kind == "pd_df_dim_mismatch":
+                physt.h(pd.DataFrame({"a": [1.0, 2.0, 3.0], "b": [2.0, 3.0, 5.0]}), 2, dim=3)
+            elif kind == "pl_df_dim_mismatch":
+                physt.h(pl.DataFrame({"a": [1.0, 2.0, 3.0], "b": [2.0, 3.0, 5.0]}), 2, dim=3)
+            elif kind == "h3_two_columns":
+                physt.h3(pd.DataFrame({"a": [1.0, 2.0, 3.0], "b": [2.0, 3.0, 5.0]}), 2)
+            elif kind == "pd_df_nonnumeric":
+                physt.h(pd.DataFrame({"a": [1.0, 2.0, 3.0], "b": ["x", "y", "z"]}), 2)
             else:
                 physt.h(np.zeros((4, 3)), 2, dim=2)
     except Exception:
